@@ -37,9 +37,12 @@ Natives == << [name |-> "log1", arity |-> 1, beh |-> "log"] >>
 \* tables and function values need a statement-level prologue; operands then read the variables
 Prologue == << SetV("t0", 2, C("CreateTable", <<>>, 0, 0, "", <<>>)),
                SetV("t2", 2, C("Array", <<IntC(5), IntC(6)>>, 0, 0, "", <<>>)),
+               \* as long as t2 with other content / with the same content (another object)
+               SetV("t3", 2, C("Array", <<IntC(5), IntC(7)>>, 0, 0, "", <<>>)),
+               SetV("t4", 2, C("Array", <<IntC(5), IntC(6)>>, 0, 0, "", <<>>)),
                SetV("fv", 2, C("Function", <<>>, 0, 0, "f", <<>>)) >>
 Atoms == << NilC, IntC(0), IntC(1), IntC(-1), IntC(2), IntC(7), RealC(1, 1), RealC(-3, 1), RealC(2, 0), RealC(0, 0),
-            Str("", 0), Str("a", 1), Str("ab", 2), Rd("t0", 2), Rd("t2", 2), Rd("fv", 2) >>
+            Str("", 0), Str("a", 1), Str("b", 1), Str("ab", 2), Rd("t0", 2), Rd("t2", 2), Rd("t3", 2), Rd("t4", 2), Rd("fv", 2) >>
 BinOps == {"Add", "Sub", "Mul", "Div", "Less", "LessOrEq", "Equals", "NotEquals", "And", "Or", "Xor"}
 UnOps == {"Not", "Len"}
 OpsPrograms ==
@@ -104,7 +107,7 @@ KeyFns == { Clo(P2, <<Ret(Rd("v", 1))>>),
             Clo(P2, <<Log1(Rd("k", 1)), Ret(Op2("Mul", Rd("v", 1), Rd("v", 1)))>>) }
 StdMain(mk, callcard) == [fns |-> << Fn("main", <<>>, mk \o << SetG("r", 1, callcard), SetG("after", 5, Rd("t", 1)) >>, 0) >>,
                           natives |-> Natives]
-NonTables == { NilC, IntC(5), Str("ab", 2), RealC(1, 1) }
+NonTables == { NilC, IntC(5), IntC(0), Str("ab", 2), Str("", 0), RealC(1, 1), RealC(0, 0) }
 StdPrograms ==
      { StdMain(TableMakers[j], CallC(f, <<cb, Rd("t", 1)>>)) : j \in 1..Len(TableMakers), f \in {"std.filter", "std.map", "std.any"}, cb \in Callbacks3 }
 \cup { StdMain(TableMakers[j], CallC(f, <<kf, Rd("t", 1)>>)) : j \in 1..Len(TableMakers), f \in {"std.min_by_key", "std.max_by_key", "std.sorted_by_key"}, kf \in KeyFns }
